@@ -110,10 +110,199 @@ def gen_cases(ctx, n):
         elif k < 8:
             na = (k == 7)
             cases.append({"kind": "text", "i": i, "map": m, "text": gen_text(r, m, na)})
-        else:
-            via = "canon" if (i % 20 == 19 and all(o != n for o, n in m)) else "transform"
+        elif k < 9:
+            via = "canon" if (i % 20 == 18 and all(o != n for o, n in m)) else "transform"
             cases.append({"kind": "program", "via": via, "i": i, "map": m, "src": gen_program(r, m)})
+        else:
+            xm = gen_exec_map(r)
+            hazard = (i % 50 == 9)
+            cases.append({"kind": "exec", "i": i, "map": xm, "hazard": hazard, "src": gen_exec_program(r, xm, hazard)})
     return cases
+
+
+# ---------------------------------------------------------------------------------------------
+# execution oracle: programs run before / after transform_imports in an import universe where NEW paths
+# denote the same objects as OLD paths
+
+X_OLD_ROOTS = ["pkg", "m", "aa"]
+X_NEW_ROOTS = ["zz", "mm", "nn"]
+X_SUBS = ["sub", "s2", "qq", "tt"]
+X_VALS = ["f", "g", "h", "k"]
+
+
+def gen_exec_map(r):
+    """1-2 entries; OLD under an old root, NEW under a new root (or a sibling of OLD); sometimes nested keys"""
+    def path(root, lo, hi):
+        return ".".join([root] + [r.choice(X_SUBS) for _ in range(r.randint(lo, hi))])
+    roots = r.sample(X_OLD_ROOTS, 2)
+    nroots = r.sample(X_NEW_ROOTS, 2)
+    old = path(roots[0], 0, 2)
+    k = r.random()
+    new = path(nroots[0], 0, 2) if k < .75 else old.rsplit(".", 1)[0] + "." + r.choice(["n1", "n2"]) if "." in old else nroots[0]
+    m = [[old, new]]
+    k = r.random()
+    if k < .25:                                         # an independent second entry
+        m.append([path(roots[1], 0, 1), path(nroots[1], 0, 1)])
+    elif k < .45:                                       # nested keys: a.b -> x together with a.b.c -> y
+        ext = [old + "." + r.choice(X_SUBS), path(nroots[1], 0, 1)]
+        m = [m[0], ext] if r.random() < .5 else [ext, m[0]]
+    return m
+
+
+def gen_exec_program(r, m, hazard):
+    """imports (top level) of / under the OLD paths, then code that reaches OLD only through them"""
+    imps, body = [], []
+    nvar = [0]
+
+    def var():
+        nvar[0] += 1
+        return "v%d" % nvar[0]
+
+    def use(expr):
+        """a few ways to use an expression that denotes a module or a value"""
+        k = r.random()
+        val = r.choice(X_VALS)
+        if k < .3:
+            return ["%s = %s.%s(1)" % (var(), expr, val)]
+        if k < .5:
+            return ["%s.%s.%s" % (expr, val, r.choice(X_VALS))]
+        if k < .7:
+            fn = "fn%d" % (nvar[0] + 1)
+            return ["def %s(a=None):" % fn, "    return %s.%s" % (expr, val), "%s = %s()" % (var(), fn)]
+        if k < .85:
+            return ["%s = [%s.%s for _i in (1, 2)]" % (var(), expr, val)]
+        return ["%s = (%s.%s, 2)" % (var(), expr, val)]
+
+    for old, _new in m:
+        for _ in range(r.randint(1, 3)):
+            k = r.random()
+            if k < .3:                                  # import OLD[.sub]
+                p_ = old + ("." + r.choice(X_SUBS) if r.random() < .4 else "")
+                imps.append("import %s" % p_)
+                body += use(p_ if r.random() < .7 else old)
+            elif k < .5:                                # from OLD[.sub] import value [as alias]
+                p_ = old + ("." + r.choice(X_SUBS) if r.random() < .3 else "")
+                val = r.choice(X_VALS)
+                al = val if r.random() < .6 else "al%d" % len(imps)
+                imps.append("from %s import %s%s" % (p_, val, "" if al == val else " as " + al))
+                body.append("%s = %s(%s)" % (var(), al, r.choice(["1", "'s'", ""])))
+            elif k < .7:                                # import OLD as alias
+                al = "al%d" % len(imps)
+                imps.append("import %s as %s" % (old, al))
+                body += use(al)
+            elif k < .85 and "." in old:                # from PARENT import LAST [as alias]   (fullname == OLD)
+                par, last = old.rsplit(".", 1)
+                al = last if r.random() < .5 else "al%d" % len(imps)
+                imps.append("from %s import %s%s" % (par, last, "" if al == last else " as " + al))
+                body += use(al)
+            else:                                       # from OLD import submodule
+                sub = r.choice(X_SUBS)
+                al = "al%d" % len(imps)
+                imps.append("from %s import %s as %s" % (old, sub, al))
+                body += use(al)
+    if r.random() < .5:
+        imps.append(r.choice(["import other.thing", "from other import z", "import other"]))
+        body.append(r.choice(["%s = 1" % var(), "pkg_subx = 3", "%s = 'text'" % var()]))
+    if hazard:                                          # outside the property's domain (unclaimed stream)
+        old = m[0][0]
+        root = old.split(".")[0]
+        k = r.random()
+        if k < .4 and "." in old:
+            imps.append("import %s" % root)
+            body.append("%s = %s.%s" % (var(), old, r.choice(X_VALS)))
+        elif k < .7:
+            body += ["def hz():", "    import %s" % old, "    return %s.%s" % (old, r.choice(X_VALS)), "%s = hz()" % var()]
+        elif "." in old:
+            imps.append("import %s" % old)
+            body.append("%s = %s.__name__" % (var(), root))
+        else:
+            body.append("%s = '%s'" % (var(), old))
+    r.shuffle(imps)
+    # keep at most two import blocks: some imports first, a statement, the rest
+    cut = r.randint(0, len(imps))
+    lines = imps[:cut] + (["_sep = 0"] if 0 < cut < len(imps) else []) + imps[cut:] + body
+    return "\n".join(lines) + "\n"
+
+
+def run_aliased(src, m):
+    """execute src under the aliasing universe; returns the observables"""
+    import importlib
+    import importlib.abc
+    import importlib.machinery
+    import sys
+    import types
+    log = []
+    inv = [(new, old) for old, new in m]
+
+    def canon(name):
+        for _ in range(4):
+            for new, old in sorted(inv, key=lambda p: -len(p[0])):
+                if name == new or name.startswith(new + "."):
+                    name = old + name[len(new):]
+                    break
+            else:
+                break
+        return name
+
+    class V:
+        def __init__(s, tag):
+            object.__setattr__(s, "_tag", tag)
+        def __getattr__(s, n):
+            if n.startswith("__"):
+                raise AttributeError(n)
+            log.append([s._tag, "." + n])
+            return V(s._tag + "." + n)
+        def __call__(s, *a, **k):
+            log.append([s._tag, "(%d)" % len(a)])
+            return V(s._tag + "()")
+
+    class VMod(types.ModuleType):
+        def __getattr__(s, n):
+            if n.startswith("__") or n in X_SUBS or n in ("n1", "n2", "thing"):
+                raise AttributeError(n)        # a submodule that nothing imported: as a real package
+            return V(canon(s.__name__) + ":" + n)
+
+    roots = set(X_OLD_ROOTS + X_NEW_ROOTS + ["other"])
+
+    class Finder(importlib.abc.MetaPathFinder, importlib.abc.Loader):
+        def find_spec(self, name, path=None, target=None):
+            if name.split(".")[0] in roots:
+                return importlib.machinery.ModuleSpec(name, self, is_package=True)
+        def create_module(self, spec):
+            mod = VMod(spec.name)
+            mod.__path__ = []
+            return mod
+        def exec_module(self, module):
+            pass
+
+    def tag(v):
+        if isinstance(v, V):
+            return "V:" + v._tag
+        if isinstance(v, VMod):
+            return "M:" + canon(v.__name__)
+        if isinstance(v, (list, tuple)):
+            return [tag(x) for x in v]
+        if isinstance(v, types.FunctionType):
+            return "func"
+        return repr(v)
+
+    g = {"__name__": "prog"}
+    finder = Finder()
+    saved = set(sys.modules)
+    sys.meta_path.insert(0, finder)
+    exc = None
+    try:
+        try:
+            exec(compile(src, "<p>", "exec"), g)
+        except BaseException as e:
+            exc = type(e).__name__ + ": " + str(e)[:100]
+        skip = roots | {"__name__", "__builtins__"}
+        fin = {k: tag(v) for k, v in g.items() if k not in skip and not k.startswith("__")}
+        return {"exc": exc, "log": log[:500], "final": fin}
+    finally:
+        sys.meta_path.remove(finder)
+        for k in set(sys.modules) - saved:
+            del sys.modules[k]
 
 
 # ---------------------------------------------------------------------------------------------
@@ -169,6 +358,16 @@ def impl_case(c):
             S.SourceToSourceImportBlockTransformation.pretty_print = orig
         return {"blocks": blocks, "renders": renders, "out": out.text.joined, "wordchars": wordchars(c["src"]),
                 "order": order}
+    if c["kind"] == "exec":
+        import pyflyby._imports2s as S
+        from pyflyby._parse import PythonBlock
+        before = run_aliased(c["src"], c["map"])
+        try:
+            out = S.transform_imports(PythonBlock(c["src"]), m).text.joined
+        except Exception as e:
+            return {"before": before, "out": None, "error": type(e).__name__ + ": " + str(e)[:100]}
+        after = run_aliased(out, c["map"])
+        return {"before": before, "out": out, "after": after}
     raise ValueError(c["kind"])
 
 
@@ -198,6 +397,8 @@ def model_exprs(cases, impl):
             w = cm.clist([cm.cN(ord(x)) for x in im["wordchars"]])
             exprs.append("run_text %s %s %s" % (w, c_map(c["map"]), cm.cstr(body)))
             index.append((ci, "text", None))
+        elif c["kind"] == "exec":
+            continue                                    # oracle only (the same pipeline is tied by the program kind)
         else:
             w = cm.clist([cm.cN(ord(x)) for x in im["wordchars"]])
             mp = c_map(im.get("order", c["map"]))
@@ -296,6 +497,32 @@ def oracle_text(text, out, m, wc):
     return None if s == out else "body substitution differs from the whole-word rule: %r vs %r" % (out, s)
 
 
+def oracle_exec(ctx, c, im):
+    """behaviour clause: a program that reaches OLD only through matching top-level imports, run where NEW denotes
+    the same objects as OLD, performs the same operations on the same objects and leaves the same values"""
+    b = im["before"]
+    if c.get("hazard"):
+        # outside the property's domain (DESIGN: domain note): recorded, never a violation
+        a = im.get("after")
+        same = a is not None and a["exc"] == b["exc"] and a["log"] == b["log"] and a["final"] == b["final"]
+        ctx.bump("exec:hazard_stream:" + ("same" if same else "differs"))
+        return None
+    if b["exc"] is not None:
+        ctx.bump("exec:discarded(original raises)")
+        return None
+    if im.get("out") is None:
+        return "transform_imports raised %s" % im.get("error")
+    a = im["after"]
+    ctx.bump("exec:in_domain")
+    if a["exc"] is not None:
+        return "the renamed program raises %s; before: no exception.  output:\n%s" % (a["exc"], im["out"])
+    if a["log"] != b["log"]:
+        return "operations on imported objects differ: %r vs %r\noutput:\n%s" % (b["log"][:8], a["log"][:8], im["out"])
+    if a["final"] != b["final"]:
+        return "final values differ: %r vs %r\noutput:\n%s" % (b["final"], a["final"], im["out"])
+    return None
+
+
 # ---------------------------------------------------------------------------------------------
 
 def compare(ctx, cases, impl, exprs, index, model):
@@ -322,6 +549,11 @@ def compare(ctx, cases, impl, exprs, index, model):
                 ctx.violation("replace_iff_component_prefix", c, msg)
             nontriv = im["imp"] != c["imp"]
             ctx.bump("replace_changed" if nontriv else "replace_unchanged")
+        elif c["kind"] == "exec":
+            msg = oracle_exec(ctx, c, im)
+            if msg:
+                ctx.violation("behaviour_preserved", c, msg)
+            nontriv = im.get("out") is not None and im["before"]["exc"] is None and bool(im["before"]["log"])
         elif c["kind"] == "text":
             (_, _, mv), = per_case[ci]
             if mv != im["text"]:
@@ -374,7 +606,8 @@ def run(ctx):
     cm.check_anchors(ctx, ANCHORS)
     n = (1500 if ctx.quick else 60000) * ctx.scale
     ctx.coverage["rule"] = ("cases from one seeded PRNG: 40% Import.replace chains, 40% body texts (10% with non-ASCII "
-                            "word/non-word neighbours), 20% whole modules through transform_imports; non-trivial = the "
+                            "word/non-word neighbours), 10% whole modules through transform_imports / canonicalize_imports, 10% programs executed "
+                            "before/after transform_imports under an aliasing import universe (2% of them in the hazard stream); non-trivial = the "
                             "implementation changed the import / text, or the module has an import block; distinct by hash of the case")
     ctx.assumptions += [
         "re's \\w on the non-ASCII characters of each text is an oracle argument (taken from the real engine on the run)",
